@@ -189,6 +189,8 @@ def main():
     jobs, nd, meta = [], {}, {}
     for i, r in enumerate(recs):
         d = adeck.normalise(build_deck(r))
+        if i % 2 and (r['spell'] == 'star' or r['carrier'] == 'trclstar'):
+            d['starwide'] = True      # the same angles written beyond 180 degrees (270, -90, 360 - a)
         d['pts'] = rng.sample(allpts, 140)
         nd[i + 1] = d
         meta[i + 1] = r
@@ -197,13 +199,15 @@ def main():
     # deck with the transformation phi, TLC the deck without any transformation and the probe points in the
     # auxiliary frame; the sense rows are evaluated at phi(points).
     base = len(jobs)
-    gen_recs = [r for r in recs if r['carrier'] in ('surftr', 'trclnum', 'trclinline')
-                and r['spell'] in ('12', '13', 'rows12', 'rows13', 'rows23', 'cols12', 'cols13', 'cols23')]
+    gen_recs = [r for r in recs if r['carrier'] in ('surftr', 'trclnum', 'trclinline', 'trclstar')
+                and r['spell'] in ('12', '13', 'rows12', 'rows13', 'rows23', 'cols12', 'cols13', 'cols23', 'star')]
     rng.shuffle(gen_recs)
     for i, r in enumerate(gen_recs[:(3000 if thorough else 400)]):
         o, R = adeck.PHIS[i % len(adeck.PHIS)]
         phi_tr = {'o': list(o), 'm': [R[rr][cc] for cc in range(3) for rr in range(3)]}
         moved = adeck.normalise(build_deck(dict(r, tr=phi_tr)))
+        if i % 2 and (r['spell'] == 'star' or r['carrier'] == 'trclstar'):
+            moved['starwide'] = True      # general angles written beyond 180 degrees (360 - a, -a)
         ident = adeck.normalise(build_deck(dict(r, tr={'o': [0, 0, 0], 'm': adeck.IDM})))
         for c in ident['cells']:
             c['hastrcl'] = False
